@@ -56,6 +56,9 @@ fn crafted() -> Vec<Vec<u8>> {
         pdu_bytes(4, &[0, 0, 0, 4, 1, 0xff, 9]), pdu_bytes(4, &[0, 0, 0, 3, 1, 0xfc, 9, 0, 0]),
         pdu_bytes(4, &[0, 0, 0, 3, 1, 2, 9, 0, 0, 0, 2, 5, 1]), pdu_bytes(4, &[0, 0, 0, 2, 1]),
         pdu_bytes(4, &[0xff, 0xff, 0xff, 0xff, 1, 3, 7]),
+        // a last item cut to 4 or 5 bytes, outer PDU length consistent (guard `remaining() >= 4 + 1 + 1`)
+        pdu_bytes(4, &[0, 0, 0, 2]), pdu_bytes(4, &[0, 0, 0, 2, 1, 2, 0, 0, 0, 2]), pdu_bytes(4, &[0, 0, 0, 2, 1, 2, 0, 0, 0, 3, 5]),
+        pdu_bytes(4, &[0, 0]), pdu_bytes(4, &[0]),
         // unknown PDU types
         pdu_bytes(0, &[1, 2, 3]), pdu_bytes(8, &[]), pdu_bytes(0xff, &[0; 5]),
         // associate: fixed part too short
@@ -231,9 +234,11 @@ fn build(r: &mut Rng, p: &Pdu, label: &str, raws_in: Vec<Vec<u8>>, all_prefixes_
     let mut raws: Vec<(Vec<u8>, Option<Result<Option<(Pdu, usize)>, u32>>)> = vec![];
     for b in raws_in { let res = do_read(&b, max, strict); raws.push((b, res)); }
     if !bytes.is_empty() && bytes.len() <= 700 {
-        for m in 0..3 {
+        for m in 0..4 {
             let mut b = bytes.clone();
             match m {
+                // remove one byte inside the body and fix up the outer length: inner items become short
+                3 => { if b.len() > 7 { let i = r.range(6, b.len() as u64 - 1) as usize; b.remove(i); let l = (b.len() - 6) as u32; b[2..6].copy_from_slice(&l.to_be_bytes()); } }
                 0 => { let i = r.below(b.len() as u64) as usize; b[i] = if r.coin() { r.below(256) as u8 } else { *r.pick(&[0u8, 1, 2, 0x10, 0x20, 0x21, 0x30, 0x40, 0x50, 0x51, 0x52, 0x54, 0x55, 0x56, 0x58, 0xff]) }; }
                 1 => { let i = r.below(b.len() as u64) as usize; b[i] = if r.coin() { b[i].wrapping_add(1) } else { b[i].wrapping_sub(1) }; }
                 _ => { if b.len() > 7 { let k = r.range(6, b.len() as u64 - 1) as usize; b.truncate(k); let l = (k - 6) as u32; b[2..6].copy_from_slice(&l.to_be_bytes()); } }
@@ -244,7 +249,10 @@ fn build(r: &mut Rng, p: &Pdu, label: &str, raws_in: Vec<Vec<u8>>, all_prefixes_
     }
     // ---- direct oracle
     let wf = wf_pdu(p);
+    let read_panic = others.iter().map(|(k, res)| (stream[..*k].to_vec(), res)).chain(raws.iter().map(|(b, res)| (b.clone(), res)))
+        .find(|(_, res)| res.is_none()).map(|(b, _)| b);
     let oracle = (|| {
+        if let Some(b) = &read_panic { return Oracle::Fails { class: "read-panic".into(), detail: format!("read_pdu(max {}, strict {}) panicked on {}", max, strict, hex(&b[..b.len().min(200)])) }; }
         match &written {
             None => return Oracle::Fails { class: "write-panic".into(), detail: format!("write_pdu panicked on {}", label) },
             Some(Ok(w)) => {
